@@ -91,6 +91,7 @@ def check(ctx):
     ]
     ctx.rule("R1", "every character whose token the grammar excludes from subprocess argument parts triggers quoting (is in completion_quoting._PATTERN)", floor=14)
     ctx.rule("R2", "path completer and bash-completion bridge decide quoting through the one shared helper (no drifting private copies)", floor=2)
+    ctx.rule("R4", "the completion-context analyser's line-start table agrees with the lexer's notion of a line (\\n only)", floor=1)
     ctx.rule("R3", "both emitters escape the closing delimiter in force, on every path, after backslash doubling and before the assembly start+name+end", floor=10)
 
     cq = ctx.repo.module(CQ)
@@ -225,6 +226,46 @@ def check(ctx):
                 e2 = inner.nodes_of(e.ast)
                 okb, pth = inner.never_after(e2, lambda y: any(y.ast is b.ast for b in bs))
                 ctx.ob("R3", site, "backslash doubling never follows the delimiter escape (its introduced backslashes would be doubled)", okb, key=f"{fname}|backslash-after-escape", where=loc(e.ast))
+
+
+    # ------------------------------------------------------------------ R4
+    # the completion-context analyser converts the lexer's per-line positions into absolute ones through a table
+    # of line starts indexed by the lexer's line number.  The lexer advances its line number at "\n" only; a
+    # table built with str.splitlines() also breaks at \r, \v, \f, \x1c-\x1e, \x85, U+2028/9 and shifts every
+    # later token: the word under the cursor is mis-measured and the completion is spliced into the wrong place.
+    cc_rel = "xonsh/parsers/completion_context.py"
+    ccm = ctx.repo.module(cc_rel)
+    tables = set()
+    for q_, fn_ in ccm.functions():
+        for n_ in walk_local(fn_):
+            if isinstance(n_, ast.Subscript) and isinstance(n_.value, ast.Attribute) and isinstance(n_.value.value, ast.Name) and n_.value.value.id == "self" and not isinstance(n_.slice, ast.Slice) and "lineno" in unparse(n_.slice):
+                tables.add(n_.value.attr)
+    if not tables:
+        raise AnalysisError(f"{cc_rel}: no table indexed by the lexer's line number found")
+    n_tab = 0
+    for q_, fn_ in ccm.functions():
+        for n_ in walk_local(fn_):
+            if isinstance(n_, (ast.Assign, ast.AnnAssign)) and n_.value is not None:
+                tg = n_.targets if isinstance(n_, ast.Assign) else [n_.target]
+                if not any(isinstance(t, ast.Attribute) and isinstance(t.value, ast.Name) and t.value.id == "self" and t.attr in tables for t in tg):
+                    continue
+                v = n_.value
+                if isinstance(v, (ast.Tuple, ast.List)) and not v.elts:
+                    continue  # initial empty table
+                n_tab += 1
+                uses_splitlines = any(isinstance(x, ast.Call) and last_attr(x) == "splitlines" for x in ast.walk(v))
+                # newline-only mechanisms: a "\n" literal, or a module-level regex compiled from exactly "\n"
+                nl_only = any(isinstance(x, ast.Constant) and x.value == "\n" for x in ast.walk(v))
+                for x in ast.walk(v):
+                    if isinstance(x, ast.Name) and ccm.has(x.id) and isinstance(ccm.quals[x.id], FuncTypes):
+                        body_ = ccm.quals[x.id]
+                        if any(isinstance(c, ast.Call) and call_name(c) == "re.compile" and c.args and const_value(c.args[0]) == "\n" for c in ast.walk(body_)):
+                            nl_only = True
+                if not uses_splitlines and not nl_only:
+                    raise AnalysisError(f"{cc_rel}:{q_}: `{short(n_, 60)}`: cannot decide how the line-start table is computed")
+                ctx.ob("R4", f"{cc_rel}:{q_}", f"`{short(n_, 60)}`: the line-start table (indexed by the lexer's line number, which advances at \\n only) is computed from \\n only, not with splitlines()", not uses_splitlines and nl_only, key=f"{q_}|line-table-splitlines", where=loc(n_))
+    if n_tab < 1:
+        raise AnalysisError(f"{cc_rel}: no construction of the line-start table found")
 
 
 META = {
